@@ -500,7 +500,7 @@ def run(tier):
     if thorough:
         fams = [("NamesFull", "FilesFull", "MethodsAll", "ContextsQuick", (0,)),
                 ("NamesFull", "FilesThree", "MethodsOne", "ContextsFull", (0,)),
-                ("NamesFull", "FilesThree", "MethodsOne", "ContextsQuick", (2, 4, 6, 8))]
+                ("NamesFull", "FilesTwo", "MethodsOne", "ContextsQuick", (2, 4, 8))]
     # 1a. vacuity guard for the actions (small constants, -coverage)
     c0 = _cfg(os.path.join(gen, "References_cov_%s.cfg" % tier),
               _constants("NamesFull", "FilesTwo", "MethodsOne", "ContextsOne", False, priors=(0, 1)) + "SPECIFICATION Spec\n" + inv + "CHECK_DEADLOCK FALSE\n")
